@@ -251,11 +251,12 @@ typedef ssize_t (*send_t)(int, const void*, size_t, int);
 static sendto_t realSendto() { static sendto_t f = (sendto_t)dlsym(RTLD_NEXT, "sendto"); return f; }
 static send_t realSend() { static send_t f = (send_t)dlsym(RTLD_NEXT, "send"); return f; }
 
-static int scripted()   // 0 forward, 1 EAGAIN, 2 error
+static int scripted(size_t n)   // 0 forward, 1 EAGAIN, 2 error
 {
   ++g_sendCalls;
   char a = 'o';
   if (!g_script.empty()) { a = g_script.front(); g_script.pop_front(); }
+  if (n > 65507) return 0;   // the kernel checks the size before anything else (EMSGSIZE): let it say so itself
   if (a == 'e') { ++g_injectedEagain; return 1; }
   if (a == 'x') { ++g_injectedErr; return 2; }
   return 0;
@@ -265,7 +266,7 @@ extern "C" ssize_t sendto(int fd, const void* buf, size_t n, int flags, const st
 {
   bool engine = g_stepA.load(std::memory_order_acquire) && !pthread_equal(pthread_self(), g_main) && !pthread_equal(pthread_self(), g_aux);
   if (!engine) return realSendto()(fd, buf, n, flags, to, tl);
-  int a = scripted();
+  int a = scripted(n);
   if (a == 1) { errno = EAGAIN; return -1; }
   if (a == 2) { errno = EPERM; return -1; }
   ssize_t r = realSendto()(fd, buf, n, flags, to, tl);
@@ -283,7 +284,7 @@ extern "C" ssize_t send(int fd, const void* buf, size_t n, int flags)
 {
   bool engine = g_stepA.load(std::memory_order_acquire) && !pthread_equal(pthread_self(), g_main) && !pthread_equal(pthread_self(), g_aux);
   if (!engine) return realSend()(fd, buf, n, flags);
-  int a = scripted();
+  int a = scripted(n);
   if (a == 1) { errno = EAGAIN; return -1; }
   if (a == 2) { errno = EPERM; return -1; }
   ssize_t r = realSend()(fd, buf, n, flags);
